@@ -725,6 +725,13 @@ var forkMu sync.Mutex
 // panicClass: a stable label for an escaped panic: message without digits + innermost function of the repository.
 func panicClass(p *GoPanic) string {
 	msg := p.Msg
+	if strings.HasPrefix(msg, "panic(") && strings.HasSuffix(msg, ")") {
+		t := strings.TrimSuffix(strings.TrimPrefix(msg, "panic("), ")")
+		if i := strings.LastIndex(t, "/"); i >= 0 {
+			t = t[i+1:]
+		}
+		msg = "panic(" + strings.TrimPrefix(t, "*") + ")"
+	}
 	var sb strings.Builder
 	for _, r := range msg {
 		if r >= '0' && r <= '9' {
